@@ -425,21 +425,7 @@ func (e *Exec) ensureInit(p *ssa.Package) {
 	// package state: everything the package's own variables reach after initialisation (tables,
 	// default parameter objects, variables captured by stored closures) is shared between all
 	// later operations; a write to it by an operation under test is reported by the frame rule
-	for _, m := range p.Members {
-		g, ok := m.(*ssa.Global)
-		if !ok || strings.HasPrefix(g.Name(), "verif") {
-			continue
-		}
-		c := e.globals[g]
-		if c == nil {
-			continue
-		}
-		e.walkCell(c, func(o *Obj) {
-			if o != nil && o.kind == "alloc" {
-				o.prot = true
-			}
-		}, map[*Cell]bool{})
-	}
+	e.protectPackageState(p)
 }
 
 // ---------- calls ----------
